@@ -17,7 +17,14 @@ def run_mutant(m):
     d = tempfile.mkdtemp(prefix="pyvc_mut_")
     try:
         shutil.copytree("/repo/mchap", os.path.join(d, "mchap"), ignore=shutil.ignore_patterns("tests", "__pycache__"))
-        p = os.path.join(d, m["file"])
+        if m.get("contract_file"):
+            # probe of the verifier itself: a FALSE ghost claim inserted into a sidecar contract must not be provable
+            shutil.copytree(os.path.join(ROOT, "contracts"), os.path.join(d, "contracts"))
+            os.environ["PYVC_CONTRACTS"] = os.path.join(d, "contracts")
+            p = os.path.join(d, m["contract_file"])
+        else:
+            os.environ.pop("PYVC_CONTRACTS", None)
+            p = os.path.join(d, m["file"])
         src = open(p).read()
         if src.count(m["find"]) < 1:
             return m["id"], "STALE", "pattern not found"
